@@ -2,6 +2,7 @@ package an
 
 import (
 	"fmt"
+	"strings"
 
 	"golang.org/x/tools/go/ssa"
 )
@@ -62,6 +63,8 @@ func runC17(p *Prog, r *Report) {
 	r.Describe("C17.5/send-contract", "every implementation of Send/SendMsg(*Message) error consumes the message exactly when it returns nil (the contract every caller relies on through the interface)")
 	e5SendContracts(p, r, "C17.5/send-contract", nil)
 	r.Floor("C17.5/send-contract", "e5.send_implementations", 30)
+	r.Describe("C17.6/unique-sites", "every function that writes through a possibly shared message makes it unique first (frozen table of the four sites)")
+	uniqueSites(p, r, "C17.6/unique-sites", nil)
 	r.Describe("C17.3/shared-queue", "a message received from a queue that is fed with Clone'd (shared) messages is made unique before it is returned to the application")
 	e5SharedQueues(p, r, "C17.3/shared-queue")
 	r.Describe("C17.4/no-write-through", "transport Send implementations never write through the message they send (shared messages are sent concurrently by several pipes)")
@@ -200,4 +203,22 @@ func e5NoWriteThrough(p *Prog, r *Report, rule string) {
 	}
 	r.Count("e5.transport_send_impls", n)
 	r.Floor(rule, "e5.transport_send_impls", 4)
+}
+
+// ownershipIn: E5 issues restricted to the packages a behavioural property lives in.
+func ownershipIn(p *Prog, r *Report, R string, rels ...string) {
+	in := map[string]bool{}
+	for _, x := range rels {
+		in[x] = true
+	}
+	n := 0
+	for _, is := range p.E5().issues {
+		if rel, _ := p.FuncRel(is.Fn); in[rel] {
+			n++
+			r.Bad(R, p.FuncName(is.Fn)+"/"+is.Kind+"/"+is.What, p.InstrPos(is.In), is.Msg)
+		}
+	}
+	if n == 0 {
+		r.OK(R, strings.Join(rels, ","), "-", "no ownership issue")
+	}
 }
